@@ -512,6 +512,13 @@ func c12WideUniverse() *c12Universe {
 		add(opGetChannel, c, "")
 		add(opDelChannel, c, "")
 	}
+	// channel names are compared exactly as well
+	add(opNewChannel, "#X", "")
+	add(opGetChannel, "#X", "")
+	add(opDelChannel, "#X", "")
+	add(opAssociate, "#X", "me")
+	add(opDissociate, "#X", "me")
+	add(opAssociate, "#X", "a")
 	add(opTopic, "#x", "", "a topic")
 	add(opTopic, "", "", "a topic")
 	for _, x := range [][]string{
